@@ -140,11 +140,23 @@ def candidate (n : Nat) (l : List (Jump (Fin n) ℚ)) : Fin n → ℚ :=
 instance (l : List (Jump (Fin n) ℚ)) (ξ : Fin n → ℚ) : Decidable (Stationary l ξ) := by
   unfold Stationary; exact inferInstance
 
-/-- A *certified* stationary point: returned only when the exact check passes, and only for
-    a network that lists every jump with its reverse and has non-negative weights. -/
+/-- cheap sufficient test for reversibility: the list is made of adjacent (jump, reverse) pairs -/
+def pairedRev {ι : Type} [DecidableEq ι] : List (Jump ι ℚ) → Bool
+  | [] => true
+  | [_] => false
+  | a :: b :: t => decide (b = a.rev) && pairedRev t
+
+/-- Certification of a candidate solution `ξ` of the rate equation, whatever its origin (the
+    model's own Gauss–Jordan, or a certificate computed outside and shipped with the request):
+    returned only when the network lists every jump with its reverse, has non-negative weights,
+    and `ξ` passes the exact stationarity check. -/
+def certify (n : Nat) (l : List (Jump (Fin n) ℚ)) (ξ : Fin n → ℚ) : Option (Fin n → ℚ) :=
+  if (pairedRev l ∨ (l.map Jump.rev).isPerm l) ∧ (l.all fun a => decide (0 ≤ a.r)) ∧ Stationary l ξ
+  then some ξ else none
+
+/-- A *certified* stationary point from the model's own elimination. -/
 def solve (n : Nat) (l : List (Jump (Fin n) ℚ)) : Option (Fin n → ℚ) :=
-  let ξ := candidate n l
-  if (l.map Jump.rev).isPerm l ∧ (l.all fun a => decide (0 ≤ a.r)) ∧ Stationary l ξ then some ξ else none
+  certify n l (candidate n l)
 
 /-- The bilinear transport form `u·D·v = D0(u,v) − Σ_i ξ^u_i B^v_i` for directions `u`, `v`. -/
 def form (inp : Input) (u v : List ℚ) : Option ℚ := do
